@@ -66,6 +66,11 @@ def streams_for(prop):
         import impl_system
         import ref_system
         S.append(dict(name="system", gen=gen_system.gen_system, impl=impl_system.run, oracle=ref_system.check_case))
+    elif prop == "C18":
+        import gen_build
+        import impl_build
+        import ref_build
+        S.append(dict(name="build", gen=gen_build.gen_build, impl=impl_build.run, oracle=ref_build.check_case))
     elif prop in ("C13", "C15"):
         import gen_history
         import ref_history
@@ -106,6 +111,7 @@ PROPS = {
     "C04": dict(title="storage order independence"),
     "C05": dict(title="assignment keeps dims, sums by label"),
     "C06": dict(title="indexing by item labels"),
+    "C18": dict(title="systems built from definitions and files"),
 }
 
 
